@@ -12,7 +12,7 @@ import vf, rtmock
 LEVEL = "proof"
 READY = True
 TARGETS = ["theories/Props/C18.vo", "theories/Extract/ExWaitOp.vo"]
-THEOREMS = ["C18_invariant_one_operation_partial", "C18_v1_move_refuted"]
+THEOREMS = ["C18_invariant_one_operation_partial", "C18_v1_move_refuted", "C18_v2_to_v1_move_after_delivery_refuted"]
 CORPUS = os.path.join(vf.ROOT, "corpus", "C18.txt")
 BLOCKED = 4294967295
 
@@ -298,6 +298,19 @@ def run(ctx):
                 ctx.tie_broken("model-invariant", "inv_ok fails on a reachable state of the two-operation universes %r" % bad[:3])
         except RuntimeError as e:
             explored = {"error": str(e)[:300]}
+    # sub-leg: the harness's MockTask behaves like the real SharedTaskState / deliver_waitable_event
+    ok3, exe_t, log3 = rtmock.build("taskabi")
+    n_abi = 0
+    if not ok3:
+        ctx.tie_broken("tie-mocktask", "taskabi build failed:\n" + log3[-2000:])
+    else:
+        rt = ctx.rng.fork(3)
+        abi = ["", "r1.5 r2.6 e1=2 r1.7 r1.8 u2 u3 e1=4"] + [rtmock.gen_taskabi_case(rt) for _ in range(1500 if ctx.tier == "quick" else 60000)]
+        outs = rtmock.run(exe_t, abi)
+        n_abi = len(abi)
+        badabi = [(a, o) for a, o in zip(abi, outs) if " ## mock: " not in o or o.split(" ## mock: ")[0][len("real: "):] != o.split(" ## mock: ")[1]]
+        if badabi:
+            ctx.tie_broken("tie-mocktask", "MockTask and the real SharedTaskState differ on %d/%d task-ABI sequences; first: %r -> %s" % (len(badabi), len(abi), badabi[0][0], badabi[0][1][:600]))
     dist = {"total": len(cases), "corpus": len(corpus), "valid": nvalid, "malformed_or_invalid": len(cases) - nvalid,
             "moves_between_tasks": sum(1 for r in real if re.search(r"tclone:(\d) tunreg:(?!\1)\d", r)),
             "cancel_with_event_already_queued": sum(1 for c, r in zip(cases, real) if re.search(r"h\d=\d+ (?:w\d\S* )*[cd]\d\.\d", c.split("|")[2])),
@@ -316,6 +329,7 @@ def run(ctx):
         "samples": [{"scenario": c, "real": r} for c, r in list(zip(cases, real))[len(corpus):len(corpus) + 3]],
         "traces_validated_against_impl": len(cases), "model_mismatches": len(mism),
         "property_evaluated_on_real_logs": nvalid, "model_invariant_evaluated_on_valid_lists": nvalid, "distribution": dist,
+        "mocktask_vs_real_task_sequences": n_abi,
         "two_operation_universes_explored": explored if explored is not None else "thorough tier only",
     })
 
@@ -336,5 +350,5 @@ META = {
     "engine": "coq+rtmock",
     "technique": "Coq proof (reachable set of the model computed and checked closed under every valid action by vm_compute, invariant checked on all of it, lifted to all action lists by induction) + differential run of the real WaitableOperation against a native mock host",
     "text": "For every action list of any length over universes of one or two operations (async call, stream read/write, future read) and two tasks of either C ABI version: a registered waitable is in progress, alive, has no unconsumed code, and is joined to its task's set; nothing is cancelled or dropped while in a set or in a map; completions handed = in_progress_update calls + codes still pending; no map entry points to a dropped operation, including after moves between v2 tasks; no host trap, no panic. The v1 same-task assumption the code documents is a hypothesis, with a proved witness of what breaks without it. The model is tied to waitable.rs on every run by thousands of seeded action lists run natively (hook H1 + rtmock) and through the extracted model, logs compared token for token; C18's rules are also evaluated directly on the real logs.",
-    "note": "Trusted: Coq kernel; extraction + ocaml/waitop_driver.ml; rtmock (mock host, MockTask) and hook H1; Async/Host.v as transcription of the CM spec. MockTask re-implements the task side (SharedTaskState's map/join logic); the real SharedTaskState/deliver_waitable_event are exercised by C22's driver. Theorem universe: at most 2 operations (tie: up to 3).",
+    "note": "Trusted: Coq kernel; extraction + ocaml/waitop_driver.ml; rtmock (mock host, MockTask) and hook H1; Async/Host.v as transcription of the CM spec. MockTask re-implements the task side (SharedTaskState's map/join logic); it is compared with the real SharedTaskState::{cabi_waitable_register,cabi_waitable_unregister} and deliver_waitable_event on seeded register/unregister/deliver sequences on every run (rtmock bin `taskabi`). Theorem universe: at most 2 operations (tie: up to 3).",
 }
